@@ -1,5 +1,6 @@
 (* Stream E2E (C01): two nodes, real protocol stack on both ends.  case = link, ownA, ownB, gaps,
-   B's handlers (label, capture flag, removed-again flag), events.  A sends the events; the wire image is replayed to B's
+   B's handlers (label, capture flag, removed-again flag, transmit mode: the handler may transmit a fixed packet
+   or forward the packet it was given, under transmit back-pressure - which must not disturb delivery), events.  A sends the events; the wire image is replayed to B's
    receiver with 'no data yet' answers inserted by the gap pattern; B ticks until the link is dry.
    Observation: ids B's registrations returned, A's send results, B's tick results, B's handler log,
    each logged packet together with the event some decoder reads from it. *)
@@ -15,7 +16,7 @@ Definition e2e_split (case: list N) : option (N * N * N * list N * list (handler
           | Some (hls, ne :: r2) =>
               match parse_lists_n (N.to_nat ne) r2 with
               | Some (els, []) =>
-                  let hs := map (fun l => match l with [label; cap; rem] => (mkH label (negb (cap =? 0)) [], negb (rem =? 0)) | [label; cap] => (mkH label (negb (cap =? 0)) [], false) | _ => (mkH 0 false [], false) end) hls in
+                  let hs := map (fun l => match l with [label; cap; rem; _] => (mkH label (negb (cap =? 0)) [], negb (rem =? 0)) | [label; cap; rem] => (mkH label (negb (cap =? 0)) [], negb (rem =? 0)) | [label; cap] => (mkH label (negb (cap =? 0)) [], false) | _ => (mkH 0 false [], false) end) hls in
                   let es := fold_right (fun l acc => match event_of l, acc with Some e, Some a => Some (e :: a) | _, _ => None end) (Some []) els in
                   option_map (fun es => (link, ownA, ownB, gaps, hs, es)) es
               | _ => None end
